@@ -607,7 +607,167 @@ def twostep_configs(supported: List[str]) -> List[Dict[str, Any]]:
     return [{"part": "twostep", "a": a, "b": b, "carry": k} for a in range(n) for b in range(n) for k in range(len(CARRY))]
 
 
+# ---------------------------------------------------------------------------
+# queries first, initialize afterwards: looking a version up must not change what servers acknowledge
+# ---------------------------------------------------------------------------
+CANARY = "2098-07-06"      # an unsupported date that no execution ever passes to a query function
+QUERY_CHUNK = 6
+
+
+def versioning_queries():
+    """Every public function of chuk_mcp.protocol.types.versioning and every public callable attribute of its classes
+    (found by introspection), with the number of positional parameters."""
+    import inspect
+
+    import chuk_mcp.protocol.types.versioning as V
+
+    found = []
+    for name, fn in sorted(vars(V).items()):
+        if name.startswith("_"):
+            continue
+        if inspect.isfunction(fn) and fn.__module__ == V.__name__:
+            found.append((name, fn))
+        elif inspect.isclass(fn) and fn.__module__ == V.__name__:
+            for an in sorted(dir(fn)):
+                if an.startswith("_"):
+                    continue
+                attr = getattr(fn, an)
+                if callable(attr):
+                    found.append((f"{name}.{an}", attr))
+    out = []
+    for name, fn in found:
+        try:
+            n = len([p for p in inspect.signature(fn).parameters.values()
+                     if p.kind in (p.POSITIONAL_ONLY, p.POSITIONAL_OR_KEYWORD)])
+        except (TypeError, ValueError):
+            continue
+        out.append((name, fn, n))
+    return out
+
+
+def call_all_queries(v: Any, supported: List[str], queries) -> int:
+    """Pass ``v`` to every query in every argument position (alone, next to a supported version, inside lists)."""
+    s0 = supported[0]
+    cands = [v, s0, [v], [v, s0], list(supported)]
+    calls = 0
+    for _name, fn, n in queries:
+        if n == 0:
+            argsets = [()]
+        elif n == 1:
+            argsets = [(c,) for c in cands]
+        elif n == 2:
+            argsets = [(a, b) for a in cands for b in cands]
+        else:
+            continue
+        for args in argsets:
+            calls += 1
+            try:
+                fn(*[list(a) if isinstance(a, list) else a for a in args])
+            except Exception:  # noqa: BLE001 - a query may reject the value; it must not change the module's answers
+                pass
+    return calls
+
+
+def query_values(supported: List[str]) -> List[Any]:
+    dates = ["2026-01-01", "2099-01-01", "1999-12-31", "2025-13-45", "2025-00-00", "0000-00-00", "9999-12-31"]
+    for sv in supported:          # both calendar neighbours of every supported date
+        y, m, d = (int(x) for x in sv.split("-"))
+        for dd in (d - 1, d + 1):
+            if 1 <= dd <= 28:
+                dates.append(f"{y:04d}-{m:02d}-{dd:02d}")
+    vals: List[Any] = []
+    for v in dates + lookalikes(supported) + MALFORMED + [None, 12, 1.5, True, ["2025-06-18"], {"v": 1}]:
+        if v not in vals and v != CANARY and v not in supported:
+            vals.append(v)
+    return vals
+
+
+def run_queries(cfg) -> Dict[str, Any]:
+    from chuk_mcp.protocol.messages.json_rpc_message import parse_message
+
+    supported = supported_set()
+    queries = versioning_queries()
+    vals = query_values(supported)
+    chunk = [vals[i] for i in cfg["vals"]]
+    factory = _handler_factory()
+    counters: Dict[str, int] = {}
+    viol: List[dict] = []
+    tags = set()
+    phase = {"n": ""}
+
+    def count(k, n=1):
+        counters[k] = counters.get(k, 0) + n
+
+    def bad(sig, msg, wire):
+        viol.append({"sig": dict(sig, phase=phase["n"]),
+                     "msg": f"[{phase['n']}] {msg}; input={json.dumps(wire, ensure_ascii=True)}; queries called before: "
+                            f"{len(queries)} public functions of the versioning module with this value"})
+
+    async def one(handler, v, fresh):
+        r = await judge_step(handler, parse_message, supported, build_init(v, CLIENT_INFOS[1]), v, count, bad, fresh=fresh)
+        tags.add(r["tag"])
+
+    async def main():
+        phase["n"] = "canary-never-queried:at-start"
+        await one(factory(), CANARY, True)
+        pre = factory()                     # a handler that exists before anything is looked up
+        for k, v in enumerate(chunk):
+            count("query-calls", call_all_queries(v, supported, queries))
+            phase["n"] = "fresh-handler:right-after-querying-the-value"
+            await one(factory(), v, True)
+            phase["n"] = "pre-existing-handler:right-after-querying-the-value"
+            await one(pre, v, False)
+            phase["n"] = "fresh-handler:value-queried-earlier-in-the-process"
+            for u in chunk[:k]:
+                await one(factory(), u, True)
+        # control: a supported version is queried too and must still be echoed
+        sv = supported[cfg["vals"][0] % len(supported)]
+        count("query-calls", call_all_queries(sv, supported, queries))
+        phase["n"] = "fresh-handler:supported-version-after-all-queries"
+        await one(factory(), sv, True)
+        phase["n"] = "canary-never-queried:at-end"
+        await one(factory(), CANARY, True)
+
+    loop = new_loop(horizon=5)
+    with sched.patched_uuid():
+        status, val = loop.run_main(main())
+        errors = loop.collect_errors()
+        loop.abandon()
+    if status != "ok":
+        raise core.HarnessError(f"queries {cfg} did not complete: {status} {val!r}")
+    if errors:
+        raise core.HarnessError(f"queries {cfg}: event loop reported {errors[:2]}")
+    obs: Dict[str, Any] = {"outcome": "+".join(sorted(tags)), "values": [repr(v)[:40] for v in chunk]}
+    if cfg.get("single"):
+        obs["violations"] = viol
+        obs["counters"] = {"single-cases": 1}
+        return obs
+    obs["violations"] = []
+    obs["failing_signatures"] = sorted({json.dumps(v["sig"], sort_keys=True) for v in viol})
+    c = dict(counters)
+    c["query-chunks"] = 1
+    c["query-values"] = len(chunk)
+    seen_sig = set()
+    for v in viol:
+        k = json.dumps(v["sig"], sort_keys=True)
+        c["sig:" + k] = c.get("sig:" + k, 0) + 1
+        if k not in seen_sig:
+            seen_sig.add(k)
+            c[twopass.fail_key(v["sig"], cfg["vals"][0], dict(cfg, single=True))] = 1
+    if viol:
+        c["violating-judgements"] = len(viol)
+    obs["counters"] = c
+    return obs
+
+
+def queries_configs(supported: List[str]) -> List[Dict[str, Any]]:
+    n = len(query_values(supported))
+    return [{"part": "queries", "vals": list(range(i, min(n, i + QUERY_CHUNK)))} for i in range(0, n, QUERY_CHUNK)]
+
+
 def run_one(ctl: explorer.Ctl, cfg: Dict[str, Any]) -> Dict[str, Any]:
+    if cfg["part"] == "queries":
+        return run_queries(cfg)
     if cfg["part"] == "pairing":
         return run_pairing(cfg)
     if cfg["part"] == "twostep":
@@ -673,11 +833,26 @@ def run(tier: str, only=None) -> core.Result:
         sched.absorb(res, name, RUN, out, cfgs)
     # second pass: per signature the first failing cases (enumeration order), each executed alone, carry the violations
     twopass.second_pass(res, RUN, list(parts), per_sig=3)
+    # LAST (it calls the versioning module's query functions, so whatever they might leave behind in this process cannot
+    # reach the parts above): every public query with the value first, then initialize with it
+    if not only or "queries" in only:
+        qcfgs = queries_configs(supported)
+        outq = explorer.explore(RUN, qcfgs)
+        sched.absorb(res, "queries-then-initialize", RUN, outq, qcfgs, min_outcomes=1)
+        twopass.second_pass(res, RUN, ["queries-then-initialize"], per_sig=3, name="failing-query-chunks-one-by-one")
+    qc = res.parts.get("queries-then-initialize", {}).get("counters", {})
+    res.coverage["query_values"] = qc.get("query-values", 0)
+    res.coverage["query_calls"] = qc.get("query-calls", 0)
+    res.coverage["query_part_initializes"] = qc.get("cases", 0)
+    res.coverage["versioning_queries_found"] = [n for n, _f, _k in versioning_queries()]
+    if not {"ProtocolVersion.is_supported", "get_version_info"} <= set(res.coverage["versioning_queries_found"]):
+        res.harness_errors.append(f"introspection lost the versioning queries: {res.coverage['versioning_queries_found']}")
     g = res.parts.get("grid", {}).get("counters", {})
     m = res.parts.get("misc", {}).get("counters", {})
     p = res.parts.get("pairing", {}).get("counters", {})
     t = res.parts.get("twostep", {}).get("counters", {})
-    evaluations = g.get("cases", 0) + m.get("cases", 0) + p.get("pairing-cases", 0) + t.get("twostep-cases", 0)
+    evaluations = (g.get("cases", 0) + m.get("cases", 0) + p.get("pairing-cases", 0) + t.get("twostep-cases", 0)
+                   + qc.get("cases", 0))
     res.coverage["twostep_cases"] = t.get("twostep-cases", 0)
     # (d) strings that a lenient parser reads as a supported date without being the supported string
     look = {sv: sum(1 for v in versions if isinstance(v, str) and v != sv and loose_parse(v) == loose_parse(sv))
@@ -694,11 +869,11 @@ def run(tier: str, only=None) -> core.Result:
     res.coverage["pairing_handshakes"] = p.get("pairing-cases", 0)
     res.coverage["misc_cases_also_in_grid"] = misc_dup
     bysig: Dict[str, int] = {}
-    for cc in (g, m, p, t):
+    for cc in (g, m, p, t, qc):
         for k, n in cc.items():
             if k.startswith("sig:"):
                 bysig[k[4:]] = bysig.get(k[4:], 0) + n
-    res.coverage["violating_judgements"] = sum(cc.get("violating-judgements", 0) for cc in (g, m, p, t))
+    res.coverage["violating_judgements"] = sum(cc.get("violating-judgements", 0) for cc in (g, m, p, t, qc))
     res.coverage["violating_judgements_by_signature"] = dict(sorted(bysig.items()))
     res.coverage["rejected_by_parse_message"] = g.get("rejected-by-parse_message", 0) + m.get("rejected-by-parse_message", 0)
     res.coverage["library_supported_set"] = supported
@@ -724,7 +899,13 @@ def run(tier: str, only=None) -> core.Result:
         "4 envelope shapes; each on a fresh ProtocolHandler.  Two-step: every ordered pair of 12 requested values (one or more per "
         "class: each supported, future / past / non-calendar date, word, supported+newline, Arabic-Indic look-alike, int, null, "
         "absent) as two initialize requests on ONE handler, the second carrying no session id / the first one's / a never-issued "
-        "one; the session id returned by each initialize must record the version answered by that initialize.  Pairing: every repetition-free ordered client list of length <= "
+        "one; the session id returned by each initialize must record the version answered by that initialize.  Queries-then-initialize: for "
+        "unsupported dates (incl. both neighbours of every supported date), every generated look-alike, every malformed string "
+        "and 6 non-strings, in chunks of 6: a never-queried canary is initialized first; then for each value every public "
+        "function of chuk_mcp.protocol.types.versioning and every public ProtocolVersion method (found by introspection) is called "
+        "with it in every argument position (alone, beside a supported version, inside lists), then initialize with it on a "
+        "fresh handler, on a handler built before any query, and again for the values queried earlier in the execution; the "
+        "canary once more at the end; all judged by the same oracle.  Pairing: every repetition-free ordered client list of length <= "
         + ("2" if tier == "quick" else "3") + " over the 3 supported versions + 2099-01-01 + 1999-12-31 + 'bogus', x preferred in that "
         "universe or None, real send_initialize against the real handler over memory streams.  distinct = distinct "
         "(requested value, clientInfo, envelope) inputs / (list, preferred) configurations; all are non-trivial (each is judged)"
@@ -742,5 +923,7 @@ def run(tier: str, only=None) -> core.Result:
         "the pairing pump carries wire dicts (model_dump(exclude_none) -> JSON -> parse_message) like a transport; "
         "a handshake ending in VersionMismatchError is accepted even when client and server lists intersect",
         "virtual-time loop schedules ready callbacks FIFO like stock asyncio",
+        "calling the versioning module's public query functions with any value is an observation: it must not change what any "
+        "server answers afterwards (this part runs last in the process so that it cannot influence the others)",
     ]
     return res
